@@ -1150,3 +1150,32 @@ def _mk_sph():
 
 
 _mk_sph()
+
+
+# ------------------------------------------------------------------------------------------------
+#  gradientTermFixedBC: the gradient with the boundary faces doubled (ghost cells holding face values)   (C05)
+
+class GradientFixedBC(AxisOb):
+    """gradientTermFixedBC(phi) = gradientTerm(phi) on every interior face and twice that on the first and the last face
+    of each axis (the 'ghost' entry then holds the boundary-FACE value, half a cell away); gradientTerm itself is the
+    two-point difference over the metric centre distance (pinned through the flux-form and chain clauses)"""
+    name = 'gradientTermFixedBC/doubles_boundary_faces'
+    props = ('C05',)
+
+    def setup(self, w):
+        phi = w.rawcell('phi')
+        return dict(g=cal.gradientTerm(phi), gf=cal.gradientTermFixedBC(phi))
+
+    def claims(self, w, S, P, a):
+        comp = '_' + AX[a] + 'value'
+        res = []
+        for side in (0, 1):
+            fidx = face_idx(P, a, side)
+            if w.symbolic:
+                bnd_face = CTX.decide(I(fidx[a]) == 0) or CTX.decide(I(fidx[a]) == w.N[a])
+            else:
+                bnd_face = fidx[a] in (0, w.N[a])
+            want = (2 if bnd_face else 1) * w.at(getattr(S['g'], comp), fidx)
+            res.append(('fixedBC_gradient[%s,%s]' % (AX[a], 'lower' if side == 0 else 'upper'),
+                        w.eq(w.at(getattr(S['gf'], comp), fidx), want)))
+        return res
